@@ -425,20 +425,59 @@ def make_check(tier):
             params=dict(nblocks=3, placement=placements["3x3"], n_retarget=2, n_query=2, first_fixed=True), timeout=3000)
     chk.add("refcache/3blocks/shared", h_reference_cache,
             params=dict(nblocks=3, placement=placements["shared"], n_retarget=2, n_query=2, first_fixed=True), timeout=3000)
-    chk.add("refcache/4blocks/chain3", h_reference_cache,
-            params=dict(nblocks=4, placement=placements["4x4"], n_retarget=3, n_query=(1 if quick else 2), first_fixed=True),
-            timeout=6000)
-    if not quick:
-        chk.add("refcache/3blocks/long", h_reference_cache,
-                params=dict(nblocks=3, placement=placements["3x3"], n_retarget=3, n_query=3, first_fixed=True), timeout=20000)
-    chk.add("retcache/ops", h_return_cache, params=dict(nsteps=3 if quick else 4), timeout=6000)
+    if quick:
+        chk.add("refcache/4blocks/chain3", h_reference_cache,
+                params=dict(nblocks=4, placement=placements["4x4"], n_retarget=3, n_query=1, first_fixed=True), timeout=6000)
+    else:
+        # deeper histories, partitioned into one shape per second retarget (each about the size of a quick-tier shape)
+        for i in range(12):
+            for e in range(2):
+                chk.add("refcache/4blocks/chain3/second=%d,%d" % (i, e),
+                        core.with_preset(h_reference_cache, {"rt1": i, "rte1": e}),
+                        params=dict(nblocks=4, placement=placements["4x4"], n_retarget=3, n_query=2, first_fixed=True),
+                        timeout=6000)
+        for i in range(6):
+            for e in range(2):
+                chk.add("refcache/3blocks/long/second=%d,%d" % (i, e),
+                        core.with_preset(h_reference_cache, {"rt1": i, "rte1": e}),
+                        params=dict(nblocks=3, placement=placements["3x3"], n_retarget=3, n_query=2, first_fixed=True),
+                        timeout=6000)
+        for pre in [{"q0": 0}, {"q0": 1}, {"q0": 3}] + [{"q0": 2, "qs0": k} for k in range(3)]:
+            chk.add("refcache/3blocks/queries3/first=%s" % ",".join("%s:%d" % kv for kv in sorted(pre.items())),
+                    core.with_preset(h_reference_cache, pre),
+                    params=dict(nblocks=3, placement=placements["3x3"], n_retarget=2, n_query=3, first_fixed=True), timeout=6000)
+    if quick:
+        chk.add("retcache/ops", h_return_cache, params=dict(nsteps=3), timeout=6000)
+    else:
+        # one more operation than the quick tier, partitioned into one shape per first operation (each shape then has the
+        # size of the whole quick exploration and they run in parallel)
+        ir, m, blocks = _module(2)
+        nuni = len(_edge_universe(blocks, gtirb.ProxyBlock(module=m)))
+        firsts = [{"op0": o, "e0": e} for o in (0, 1) for e in range(nuni)] + [{"op0": 2}] + \
+                 [{"op0": 3, "u0": u} for u in range(len(range(0, nuni, 3)))] + [{"op0": 4}]
+        for pre in firsts:
+            chk.add("retcache/ops/first=%s" % ",".join("%s:%d" % kv for kv in sorted(pre.items())),
+                    core.with_preset(h_return_cache, pre), params=dict(nsteps=4), timeout=6000)
     chk.add("retcache/context", h_make_return_cache)
     chk.add("blockordering", h_block_ordering, params=dict(nsteps=4 if quick else 5), timeout=6000)
-    chk.add("offsetmapping", h_offset_mapping, params=dict(nsteps=3 if quick else 4), timeout=6000)
-    chk.add("identityset", h_identity_set, params=dict(nsteps=4 if quick else 5), timeout=6000)
+    if quick:
+        chk.add("offsetmapping", h_offset_mapping, params=dict(nsteps=3), timeout=6000)
+        chk.add("identityset", h_identity_set, params=dict(nsteps=4), timeout=6000)
+    else:
+        for o in range(6):
+            for e in range(2):
+                for d in range(3):
+                    chk.add("offsetmapping/first=op%d,e%d,d%d" % (o, e, d),
+                            core.with_preset(h_offset_mapping, {"op0": o, "e0": e, "d0": d}), params=dict(nsteps=4), timeout=6000)
+        for o in range(5):
+            for x in range(3):
+                chk.add("identityset/first=op%d,o%d" % (o, x), core.with_preset(h_identity_set, {"op0": o, "o0": x}),
+                        params=dict(nsteps=5), timeout=6000)
     chk.bounds = {
         "ReferenceCache": "3-4 blocks, 3-4 symbols (start and at_end, shared block), 2-3 retargets (including chains and cycles) "
-                          "followed by 1-3 arbitrary operations (get_referent, get_references, set_referent, retarget), then apply()",
+                          "followed by %s arbitrary operations (get_referent, get_references, set_referent, retarget), then "
+                          "apply()" % ("1-2" if quick else "2-3 (deeper histories partitioned into one shape per second "
+                                                           "retarget / first operation)"),
         "ReturnEdgeCache": "2 code blocks + 1 proxy, return and fallthrough edges, %d arbitrary operations from add/discard/clear/"
                            "update/query; make_return_cache with 10 body behaviours (edits, exceptions, modification of the "
                            "original CFG, replacement of ir.cfg, nesting)" % (3 if quick else 4),
